@@ -611,9 +611,7 @@ impl Chain {
                 if self.w.denom_admin.get(&c.denom) != Some(&sender) {
                     return Err("not the denom admin".into());
                 }
-                if amt == 0 {
-                    return Err("zero burn".into());
-                }
+                // lenient on zero, like mint and bank sends
                 debit(&mut self.w.bank, &from, &c.denom, amt)?;
                 *self.w.supply.get_mut(&c.denom).unwrap() -= amt;
                 let allowed: &[u32] = if miniwasm { &[1, 2] } else { &[1, 2, 3] };
